@@ -507,6 +507,27 @@ fn partial_constant_cases() -> Vec<Json> {
             }
         }
     }
+    // chains across levels: an arithmetic operation with a constant operand inside a comparison (or a
+    // shift, a bitwise operation) with a constant - moving constants across the comparison is wrong where
+    // the arithmetic wraps
+    let edge: [i64; 9] = [i64::MAX, i64::MAX - 1, i64::MIN, i64::MIN + 1, -1, 0, 1, 5, -5];
+    let shifts: [i64; 6] = [1, 2, -1, -2, i64::MAX, i64::MIN];
+    let bounds: [i64; 7] = [0, 1, -1, 5, i64::MAX, i64::MIN, i64::MIN + 2];
+    for arith in ["+", "-", "*"] {
+        for cmp in ["<", "<=", ">", ">=", "==", "!=", "&", ">>"] {
+            for v in edge {
+                for k1 in shifts {
+                    for k2 in bounds {
+                        let (a, b) = (int_text(k1), int_text(k2));
+                        let perm: Vec<&'static str> = certain(cmp, k2).into_iter().collect();
+                        push("int", &int_text(v), &[&a, &b], &format!("{{x}} {arith} {{0}} {cmp} {{1}}"), perm.clone());
+                        push("int", &int_text(v), &[&a, &b], &format!("{{0}} {arith} {{x}} {cmp} {{1}}"), perm);
+                        push("int", &int_text(v), &[&a, &b], &format!("{{1}} {cmp} {{x}} {arith} {{0}}"), vec![]);
+                    }
+                }
+            }
+        }
+    }
     let floats: [f64; 17] = [0.0, -0.0, 1.0, -1.0, 0.5, 2.0, -2.5, 0.1, 0.2, 0.3, 1e16, -1e16, 1e308, 5e-324, f64::INFINITY, f64::NEG_INFINITY, f64::NAN];
     let fconsts: [f64; 13] = [0.0, -0.0, 1.0, -1.0, 0.5, 2.0, 3.0, 0.1, 0.2, 0.3, 1e16, -1e16, 1e308];
     for op in ["+", "-", "*", "/", "%", "**", "==", "!=", "<", "<=", ">", ">="] {
@@ -1050,6 +1071,28 @@ pub fn run(session: &Session, prop: &'static RefProp, rule: &str) -> i32 {
         session.set_extra("binder_scope_cases", json!(cases.len()));
         session.run_enum(prop, cases);
     }
+    if (prop.id == "C06" || prop.id == "C07" || prop.id == "C13") && !session.stopped() {
+        // one function literal evaluated several times - by a maker called with different arguments, by a
+        // loop - captures anew each time, also when its free names occur only inside a literal nested in it
+        // (and only inside a literal nested in that one)
+        let pre = "log := mut \"\"; t := (k: string, v: bool) -> bool { log += k; return v; }; n := (k: string, v: int) -> int { log += k; return v; }; ";
+        let mut cases = vec![];
+        for (text, want) in [
+            ("mk := (flag: bool) -> () -> bool { return () -> bool { inner := () -> bool { return flag && t(\"r\", true); }; return inner(); }; }; a := mk(true); b := mk(false); c := mk(true); (a(), b(), c(), *log)", "value (true, false, true, \"rr\")"),
+            ("mk := (flag: bool) -> () -> bool { return () -> bool { inner := () -> bool { return flag || t(\"r\", false); }; return inner(); }; }; a := mk(false); b := mk(true); (a(), b(), a(), *log)", "value (false, true, false, \"rr\")"),
+            ("mk := (flag: bool) -> () -> int { return () -> int { g := () -> int { return if flag { n(\"a\", 1) } else { n(\"b\", 2) }; }; return g(); }; }; a := mk(true); b := mk(false); (a(), b(), a(), *log)", "value (1, 2, 1, \"aba\")"),
+            ("mk := (k: int) -> () -> () -> int { return () -> () -> int { return () -> int { return match k { 1 => n(\"x\", 10), 2 => n(\"y\", 20), => n(\"z\", 0), }; }; }; }; a := mk(1)(); b := mk(2)(); c := mk(3)(); (a(), b(), c(), a(), *log)", "value (10, 20, 0, 10, \"xyzx\")"),
+            ("fs := mut [any] []; for flag in [true, false, true]~ { fs += [() -> bool { h := () -> bool { return flag && t(\"r\", true); }; return h(); }]; }; rs := *fs; call := (f: any) -> any { if g: () -> bool = f { return g(); } return (); }; (call(rs[0]), call(rs[1]), call(rs[2]), *log)", "value (true, false, true, \"rr\")"),
+            ("make := (c: mut int) -> () -> () -> int { return () -> () -> int { return () -> int { c += 1; return *c; }; }; }; a := mut 0; b := mut 100; fa := make(a)(); fb := make(b)(); (fa(), fb(), fa(), *a, *b)", "value (1, 101, 2, 2, 101)"),
+            ("make := (c: mut int) -> () -> int { return () -> int { bump := () -> int { c += 10; return *c; }; return bump(); }; }; a := mut 0; b := mut 5; fa := make(a); fb := make(b); (fa(), fb(), fb(), fa(), *a, *b)", "value (10, 15, 25, 20, 20, 25)"),
+            ("make := (v: int) -> () -> mut int { return () -> mut int { mkc := () -> mut int { return mut v; }; return mkc(); }; }; p := make(1); q := make(2); x := p(); y := q(); z := p(); x += 10; (*x, *y, *z)", "value (11, 2, 1)"),
+            ("cs := [mut 0, mut 0, mut 0]; fs := cs~ @ (c: mut int) -> () -> int { return () -> int { w := () -> int { c += 1; return *c; }; return w(); }; } $]; f0 := fs[0]; f2 := fs[2]; (f0(), f0(), f2(), *cs[0], *cs[1], *cs[2])", "value (1, 2, 1, 2, 0, 1)"),
+            ("k := 1; f := () -> () -> int { return () -> int { return k; }; }; a := f(); k := 2; b := f(); g := () -> () -> int { return () -> int { return k; }; }; c := g(); (a(), b(), c())", "value (1, 1, 2)"),
+        ] {
+            cases.push(json!({"kind": "probe", "sig": format!("{}:nested-capture", prop.id), "text": format!("{pre}{text}"), "expected": want}));
+        }
+        session.run_enum(prop, cases);
+    }
     if (prop.id == "C06" || prop.id == "C11") && !session.stopped() {
         // an identifier that merely begins with a word of the language (a type name or a keyword) is an
         // identifier wherever a name can stand: declared, read, made into a cell, as parameter, as the
@@ -1091,6 +1134,33 @@ pub fn run(session: &Session, prop: &'static RefProp, rule: &str) -> i32 {
         }
         session.set_extra("keyword_prefixed_name_cases", json!(keyword_cases.len()));
         session.run_enum(prop, keyword_cases);
+    }
+    if prop.id == "C11" && !session.stopped() {
+        // the reducers are the folds the documentation gives, also where the running result leaves the int
+        // range (the language's + and * wrap), for literal and computed sources, ints and floats
+        let mut cases = vec![];
+        for (src, sum, product) in [
+            ("[9223372036854775807, 1]", "-9223372036854775808", "9223372036854775807"),
+            ("[9223372036854775807, 9223372036854775807, 2]", "0", "2"),
+            ("[-9223372036854775807, -2, -5]", "9223372036854775802", "10"),
+            ("[4611686018427387904, 4, 7]", "4611686018427387915", "0"),
+            ("[3037000500, 3037000500]", "6074001000", "-9223372036709301616"),
+            ("[-9223372036854775807 - 1, -1]", "9223372036854775807", "-9223372036854775808"),
+        ] {
+            for form in ["{s}~ $+", "f := (a: [int]) -> int { return a~ $+; }; f({s})", "{s}~ @ (x: int) -> int { return x; } $+", "{s}~ $ 0 (a: int, x: int) -> int { return a + x; }"] {
+                cases.push(json!({"kind": "probe", "sig": "C11:reducer-is-the-fold", "text": form.replace("{s}", src), "expected": format!("value {sum}")}));
+            }
+            for form in ["{s}~ $*", "f := (a: [int]) -> int { return a~ $*; }; f({s})", "{s}~ ? (x: int) -> bool { return true; } $*", "{s}~ $ 1 (a: int, x: int) -> int { return a * x; }"] {
+                cases.push(json!({"kind": "probe", "sig": "C11:reducer-is-the-fold", "text": form.replace("{s}", src), "expected": format!("value {product}")}));
+            }
+        }
+        for (src, sum) in [("[1e16, 1.0, 1.0]", "1e16"), ("[0.1, 0.2, 0.3]", "0.6000000000000001"), ("[1e16, 1.0, -1e16]", "0.0")] {
+            let want = if sum == "inf" { "value inf".to_string() } else { format!("value {sum}") };
+            for form in ["{s}~ $+", "f := (a: [float]) -> float { return a~ $+; }; f({s})", "{s}~ $ 0.0 (a: float, x: float) -> float { return a + x; }"] {
+                cases.push(json!({"kind": "probe", "sig": "C11:reducer-is-the-fold", "text": form.replace("{s}", src), "expected": want}));
+            }
+        }
+        session.run_enum(prop, cases);
     }
     if prop.id == "C11" && !session.stopped() {
         // an adapter keeps no memory of its source having ended: a source that reports the end and later
